@@ -45,11 +45,13 @@ fn main() {
         "frag-edges" => frag::run_edges(rest),
         "etf-obs" => etf::run_obs(rest),
         "etf-random" => etf::run_random(rest),
+        "etf-raw" => etf::run_raw(rest),
         "id-twins" => etf::run_id_twins(rest),
         "attack-run" => attack::run(rest),
         "order-obs" => order::run(rest),
         "control-obs" => control::run(rest),
         "dh-encode" => disthdr::run_encode(rest),
+        "dh-local" => disthdr::run_local(rest),
         "dh-edges" => disthdr::run_edges(rest),
         "framing-run" => framing::run(rest),
         "md5" => md5::run_selftest(rest),
